@@ -170,7 +170,9 @@ def make_graph(topo, tidx, variant, nsrc):
     timing = False if variant == 0 else [True, 1e9, False][(tidx + variant) % 3]
     # networks built in one go (v0 and every other variant) or step by step with Network.append
     incr = variant > 0 and (tidx + variant) % 2 == 0
-    return dict(nsrc=nsrc, mods=mods, nest=nest, lens=lens, quad=quad, timing=timing, timing_inner=bool((tidx // 3) % 2), incr=incr)
+    second = variant > 0 and (tidx + variant) % 3 == 1
+    return dict(nsrc=nsrc, mods=mods, nest=nest, lens=lens, quad=quad, timing=timing, timing_inner=bool((tidx // 3) % 2), incr=incr,
+                second=second)
 
 
 def _graphs(tier):
@@ -682,6 +684,61 @@ def run_graph(V, P, g, gi, only_set=None):
             break
     for s in sinks:
         obs["g%d.y%d" % (gi, s)] = sigs[s].state
+    if g.get("second") and only_set is None and not ck.failed_now():
+        # ---- phase T: the same network evaluated again after the source arrays were updated IN PLACE (the way optimisers
+        #      and finite_difference change designs): response, all sinks seeded, sensitivity - against the reference at the
+        #      new values (slices connected as module inputs must follow the new values)
+        tag = "T|"
+        try:
+            newvals = [V.reals("xz"[i] + "n", SRC_LEN[i]) for i in range(nsrc)]
+            for i in range(nsrc):
+                sigs[i].state[...] = newvals[i]
+            net.reset()
+            net.response()
+            duals2, p = [], 0
+            for i in range(nsrc):
+                row = []
+                for j in range(SRC_LEN[i]):
+                    d = [0] * nd
+                    d[p] = 1
+                    row.append(Dual(newvals[i][j], d))
+                    p += 1
+                duals2.append(row)
+            ref2 = ref_forward(g, duals2, coefs)
+            for s in sinks:
+                want = [q.v for q in ref2[s]] if lens[s] > 0 else ref2[s].v
+                if np.shape(sigs[s].state) == ((lens[s],) if lens[s] > 0 else ()):
+                    ck.values(tag + "y%d.state" % s, sigs[s].state, want, "response-after-in-place-update")
+            seeds2 = {}
+            for s in sinks:
+                w = _vec(V, "wn%d" % s, lens[s])
+                seeds2[s] = w
+                sigs[s].sensitivity = (np.array(w, dtype=w.dtype).view(type(w)) if isinstance(w, np.ndarray) else w)
+            net.sensitivity()
+            rch = reach(g, sinks)
+            p = 0
+            for i in range(nsrc):
+                exp = []
+                for j in range(SRC_LEN[i]):
+                    tot = 0
+                    for s in sinks:
+                        if lens[s] == 0:
+                            tot = tot + seeds2[s] * ref2[s].d[p]
+                        else:
+                            for q in range(lens[s]):
+                                tot = tot + seeds2[s][q] * ref2[s][q].d[p]
+                    exp.append(tot)
+                    p += 1
+                got = sigs[i].sensitivity
+                if got is not None and i in rch and np.shape(got) == (SRC_LEN[i],):
+                    ck.values(tag + "src%d.sens" % i, got, exp, "total-derivative-after-in-place-update")
+                elif i in rch:
+                    ck.exact(tag + "src%d.sens-is-set" % i, False, "total-derivative-after-in-place-update",
+                             detail="no / wrongly shaped sensitivity on source %d in the second evaluation" % i)
+        except Exception as e:
+            if not _raised_in_repo(e):
+                raise
+            ck.exact(tag + "exception:%s" % type(e).__name__, False, "exception", detail=str(e)[:300])
     return ck, obs
 
 
@@ -783,7 +840,9 @@ def _norm_clause(c):
 def _replay_once(g, gi, phase, want, env):
     V = Vals(env=env)
     only = int(phase[1:]) if phase.startswith("S") else None
-    if only is None or only == 0:
+    if phase == "T":
+        ck, _ = run_graph(V, None, g, gi)            # the second evaluation follows the complete first protocol
+    elif only is None or only == 0:
         ck, _ = run_graph(V, None, g, gi, only_set=0 if only == 0 else -1)
     else:
         # seed sets after the first ran after Network.reset(): replay the same protocol (all sets in order)
